@@ -345,7 +345,8 @@ def _init_bc(A: spmatrix,
     if x is None:
         x = np.zeros(A.shape[0], dtype=A.dtype)
     elif b is None:
-        b = np.zeros_like(x)
+        # a floating array: the helpers store quotients and solutions in it
+        b = np.zeros(x.shape, dtype=np.result_type(x, np.float32))
 
     return b, x, I, D
 
